@@ -273,9 +273,19 @@ struct Chain {
     stages: Vec<Stage>,
 }
 
+/// a closure argument that may be spliced into the enclosing function: its body must not contain `return` (which would leave the
+/// CLOSURE there but the FUNCTION after splicing) nor `?`
 fn closure_of(e: &Expr) -> Option<ExprClosure> {
     match e {
-        Expr::Closure(c) => Some(c.clone()),
+        Expr::Closure(c) => {
+            let mut h = HasReturnOrTry { found: false };
+            syn::visit::Visit::visit_expr(&mut h, &c.body);
+            if h.found {
+                None
+            } else {
+                Some(c.clone())
+            }
+        }
         Expr::Paren(p) => closure_of(&p.expr),
         _ => None,
     }
@@ -2308,6 +2318,16 @@ fn do_fn(items: &[Item], req: &ItemReq, feats: &[String]) -> std::result::Result
         *rw.counts.entry("R26.mut_self".to_string()).or_insert(0) += 1;
     }
 
+    // A5 (signature side): a parameter whose type mentions a trait object becomes the same opaque `VxDyn` that struct fields of such
+    // types become, so that a constructor storing the parameter in the field still type-checks
+    for a in sig.inputs.iter_mut() {
+        if let FnArg::Typed(pt) = a {
+            if pt.ty.to_token_stream().to_string().contains("dyn ") {
+                pt.ty = Box::new(parse_quote!(VxDyn));
+                *rw.counts.entry("A5.dyn_param_opaque".to_string()).or_insert(0) += 1;
+            }
+        }
+    }
     for a in sig.inputs.iter_mut() {
         if let FnArg::Typed(pt) = a {
             if let Pat::Ident(pi) = &*pt.pat {
